@@ -358,6 +358,20 @@ fn case(i: u64, rng: &mut Rng, st: &mut State, quick: bool) {
     let mut p = seed.proof.clone();
     p.pow_nonce = 0;
     sem.push(("pow_nonce=0", p));
+    // nonces that agree with the original one as field elements, in their low half, or up to one bit
+    for (what, v) in [
+        ("pow_nonce+f64-modulus", seed.proof.pow_nonce.wrapping_add(18446744069414584321)),
+        ("pow_nonce-f64-modulus", seed.proof.pow_nonce.wrapping_sub(18446744069414584321)),
+        ("pow_nonce+f62-modulus", seed.proof.pow_nonce.wrapping_add(4611624995532046337)),
+        ("pow_nonce+2*f62-modulus", seed.proof.pow_nonce.wrapping_add(2 * 4611624995532046337)),
+        ("pow_nonce^2^63", seed.proof.pow_nonce ^ (1 << 63)),
+        ("pow_nonce^2^32", seed.proof.pow_nonce ^ (1 << 32)),
+        ("pow_nonce+2^32", seed.proof.pow_nonce.wrapping_add(1 << 32)),
+    ] {
+        let mut p = seed.proof.clone();
+        p.pow_nonce = v;
+        sem.push((what, p));
+    }
     for d in [1i16, -1] {
         let mut p = seed.proof.clone();
         p.num_unique_queries = (p.num_unique_queries as i16 + d).clamp(0, 255) as u8;
@@ -449,7 +463,7 @@ fn main() {
         run.merge(s);
     }
     run.finish(Finish {
-        rule: "seed proofs of small C01-family configurations (n = 8..32, 6..9 queries with >= 40 bits of query-position entropy, every eighth seed with one or two queries (single-index openings; nonce edits not judged there), 0..max FRI layers, single and multi segment, Lagrange kernel, trace metadata of 0..255 bytes at the element-chunk boundaries, all 12 field x hasher combinations, three extension degrees); mutants: every single-bit flip of the serialized proof (exhaustive in thorough; in quick all bits for proofs <= 1500 bytes and for the first 200 bytes, one random bit per byte beyond), every scalar and length field located by the wire-layout parser set to {0,1,max-1,max,+-1,random,...}, every blob grown / shrunk by one byte, one zero byte, one digest, one field element and one table row with all enclosing lengths fixed up, emptied, bit-flipped; rows added to / removed from every opened table at once; out-of-domain frames re-encoded with frame size 1/3/4, a column added/removed, Lagrange frame injected/resized; FRI layers removed / duplicated / swapped; query records swapped; one extra / one fewer digest inside each Merkle node vector; trailing garbage; truncation at every offset; pairs of structured edits (sampled second generation); semantic edits through the public fields (nonce, unique-query count, gkr_proof toggled/replaced, query sets swapped); FRI remainder replaced by remainder + c*prod(x - x_q) over the final query points (positions read from the verifier's coin). Oracle: parse failure, or decoded content equal to the original (or equal up to digest re-encoding / partition count: outside the claim), or rejected; acceptance otherwise is a violation. distinct_nontrivial = number of mutants that parsed to different content and were rejected + seeds".into(),
+        rule: "seed proofs of small C01-family configurations (n = 8..32, 6..9 queries with >= 40 bits of query-position entropy, every eighth seed with one or two queries (single-index openings; nonce edits not judged there), 0..max FRI layers, single and multi segment, Lagrange kernel, trace metadata of 0..255 bytes at the element-chunk boundaries, all 12 field x hasher combinations, three extension degrees); mutants: every single-bit flip of the serialized proof (exhaustive in thorough; in quick all bits for proofs <= 1500 bytes and for the first 200 bytes, one random bit per byte beyond), every scalar and length field located by the wire-layout parser set to {0,1,max-1,max,+-1,random,...}, every blob grown / shrunk by one byte, one zero byte, one digest, one field element and one table row with all enclosing lengths fixed up, emptied, bit-flipped; rows added to / removed from every opened table at once; out-of-domain frames re-encoded with frame size 1/3/4, a column added/removed, Lagrange frame injected/resized; FRI layers removed / duplicated / swapped; query records swapped; one extra / one fewer digest inside each Merkle node vector; trailing garbage; truncation at every offset; pairs of structured edits (sampled second generation); semantic edits through the public fields (nonce incl. its aliases modulo the 62/64-bit moduli and in the high half, unique-query count, gkr_proof toggled/replaced, query sets swapped); FRI remainder replaced by remainder + c*prod(x - x_q) over the final query points (positions read from the verifier's coin). Oracle: parse failure, or decoded content equal to the original (or equal up to digest re-encoding / partition count: outside the claim), or rejected; acceptance otherwise is a violation. distinct_nontrivial = number of mutants that parsed to different content and were rejected + seeds".into(),
         assumptions: vec!["all bindings are hash based: accidental acceptance needs a collision".into(), "panics are attributed to C06 and only counted here".into()],
         exhaustive: !quick,
         require,
